@@ -15,7 +15,7 @@ LEVEL = 'exploration'
 TITLE = 'Requested mask is used; automatic mask minimises the ISO penalty score'
 RULE = ('automatic: all 8 (QR) / 4 (Micro) mask candidates of every explored symbol are rebuilt and scored independently; explored symbols: '
         'every (version, level) x 3 contents, all numeric strings 0..9999 at 1-L and 1-H, all 1-/2-character alphanumeric strings at '
-        'M2-M4 [thorough: all 5-digit strings at versions 1 and 2, all 2-byte contents at M3/M4, all 40 versions]. requested: every mask '
+        'M2-M4, every symbol of 2-5 symbol Structured Append sequences [thorough: all 5-digit strings at versions 1 and 2, all 2-byte contents at M3/M4, all 40 versions]. requested: every mask '
         'k for every (version, level): unmasking with qrref pattern k must give the same data stream for all k and valid RS blocks. '
         'non-trivial = symbol returned and all candidates scored')
 BOUNDS = {'quick': 'versions <= 20 for the per-cell family', 'thorough': 'all 40 versions; 5-digit strings; all 2-byte contents at M3/M4'}
@@ -49,6 +49,10 @@ def gen_cases(tier):
         if q and not (T.is_micro(v) or v <= 10 or v in (27, 40)):
             continue
         yield ('req', v, lvl)
+    # every symbol of a Structured Append sequence chooses its own mask
+    for v in (1, 2, 3) if q else (1, 2, 3, 5, 7, 10):
+        for lvl in ('L', 'M', 'Q', 'H'):
+            yield ('seq', v, lvl)
 
 
 def judge_auto(qr, acc, case):
@@ -118,6 +122,26 @@ def run_case(case, acc):
         for b in range(256):
             c = bytes([a, b])
             auto(c, kw, acc, ('auto1', c, kw))
+    elif kind == 'seq':
+        _, v, lvl = case
+        per = C.max_count('alphanumeric', v, lvl, extra_bits=20)
+        for nsym in (2, 3, 5):
+            for variant in (0, 1):
+                content = C.content_of('alphanumeric', max(nsym, (per - 3) * nsym), variant)
+                for kw in ({'symbol_count': nsym, 'error': lvl, 'boost_error': False}, {'symbol_count': nsym, 'error': lvl, 'mask': 5}):
+                    try:
+                        seq = segno.make_sequence(content, **kw)
+                    except C.REFUSALS:
+                        continue
+                    for i, qr in enumerate(seq):
+                        c2 = ('seq1', v, lvl, nsym, variant, kw, i)
+                        if 'mask' in kw:
+                            fm = C.D.read_format(qr.matrix)[2]
+                            acc.eval(c2, nontrivial=True, outcome=fm, state=('seq-req', qr.version, i))
+                            if fm != 5 or qr.mask != 5:
+                                acc.violation('sequence-requested-mask', 'symbol %d of the sequence carries mask %r, requested 5' % (i, fm), case)
+                        else:
+                            judge_auto(qr, acc, ('seq', v, lvl))
     elif kind == 'req':
         _, v, lvl = case
         nm = 4 if T.is_micro(v) else 8
